@@ -398,7 +398,7 @@ pub fn check_config(prop: &str, cfg: &Cfg) -> Report {
 
 pub fn configs(prop: &str, args: &Args) -> Vec<Cfg> {
     let thorough = args.thorough();
-    let (nmax, per_n) = if thorough { (12, 40) } else { (7, 12) };
+    let (nmax, per_n) = if thorough { (16, 40) } else { (7, 12) };
     let timeout_ms = if thorough { 120_000 } else { 10_000 };
     let pairs: Vec<(End, End)> = End::ALL.iter().flat_map(|l| End::ALL.iter().map(move |r| (*l, *r))).collect();
     let mut out = vec![];
@@ -473,7 +473,7 @@ pub fn run(prop: &str, args: &Args) -> Report {
         rep.functions.insert(f.to_string());
     }
     let thorough = args.thorough();
-    rep.bounds.push(format!("axis length n = 3..{}; {} concrete rational axes per n (family of DESIGN 5.0, pairwise distinct interval lengths except the uniform member; seed-generated members use VERIF_SEED)", if thorough { 12 } else { 7 }, if thorough { 40 } else { 12 }));
+    rep.bounds.push(format!("axis length n = 3..{}; {} concrete rational axes per n (family of DESIGN 5.0, pairwise distinct interval lengths except the uniform member; seed-generated members use VERIF_SEED)", if thorough { 16 } else { 7 }, if thorough { 40 } else { 12 }));
     rep.bounds.push("boundaries: NotAKnot, Natural, Clamped, Periodic for the whole data set; Individual with Mixed(left,right) over the 25 ordered pairs of {NotAKnot,Natural,Clamped,FirstDeriv(v),SecondDeriv(v)} (quick: 6 pairs per axis, rotating; thorough: all 25 per axis); per-lane assignments over 2, 2x2 (thorough 2x3, 2x1x2) lanes".into());
     rep.bounds.push("trailing data shapes (), (2), (1,2), (2,2) [thorough: (2,3), (2,1,2)]; every data value, FirstDeriv/SecondDeriv value and the query are solver variables (reals)".into());
     rep.outside.push("symbolic (non-concrete) axes: NRA queries with symbolic spline axes are not decided by z3/cvc5 (DESIGN section 4)".into());
